@@ -205,8 +205,9 @@ def prov_step(act, args, dst):
 def run20(prop, tier, replay):
     sc = vlib.Scratch(prop)
     try:
-        ov = overlay.write_overlay(sc, "ov.json")
-        binp = vlib.go_build(sc, "./cmd/clusterscen", "clusterscen", overlay=ov)
+        # the barrier accessor (inbox of an actor empty and idle) is added for this harness only
+        ov = overlay.write_overlay(sc, "ov.json", add_files={"actor/verif_quiet.go": os.path.join(vlib.HARNESS, "overlay_opt", "actor", "verif_quiet.go")})
+        binp = vlib.go_build(sc, "./cmd/clusterscen", "clusterscen", overlay=ov, tags="verif,verifquiet")
         peers = ["G1", "G2", "G3"] if tier == "thorough" else ["G1", "G2"]
         hc = {"nodes": ["A"], "ghosts": ["G1", "G2", "G3"], "kindsOf": {"A": ["p"], "G1": ["p", "q"], "G2": ["q"], "G3": []}, "ids": [], "kinds": ["p"],
               "up": [], "provider": True}
